@@ -23,6 +23,7 @@ type Job struct {
 	Reach     []string          // labels that must be witnessed
 	MaxPaths  int
 	MapOrders bool
+	Stubs     []string // functions replaced by no-ops returning zero values (recorded as cuts)
 
 	mu                  sync.Mutex
 	paths               map[string]int
@@ -73,6 +74,7 @@ type Explorer struct {
 	fatal    []string
 	verbose  bool
 	deadline time.Time
+	maxSteps int64
 }
 
 func NewExplorer(p *Program, n int) *Explorer {
@@ -133,6 +135,32 @@ func (e *Explorer) Run(jobs []*Job) {
 		e.push(queued{job: j, item: WorkItem{model: Model{}}})
 	}
 	var wg sync.WaitGroup
+	stopProgress := make(chan bool)
+	if os.Getenv("GOSX_PROGRESS") != "" {
+		go func() {
+			tk := time.NewTicker(5 * time.Second)
+			for {
+				select {
+				case <-stopProgress:
+					return
+				case <-tk.C:
+					e.mu.Lock()
+					ql, act := len(e.queue), e.active
+					e.mu.Unlock()
+					tot := map[string]int{}
+					for _, j := range jobs {
+						j.mu.Lock()
+						for k, n := range j.paths {
+							tot[k] += n
+						}
+						j.mu.Unlock()
+					}
+					fmt.Fprintf(os.Stderr, "progress: queue=%d active=%d paths=%v\n", ql, act, tot)
+				}
+			}
+		}()
+	}
+	defer close(stopProgress)
 	for w := 0; w < e.nworkers; w++ {
 		wg.Add(1)
 		go func(id int) {
@@ -184,7 +212,7 @@ func (e *Explorer) worker(id int) {
 			e.finish(q)
 			continue
 		}
-		key := q.job.Setup + "|" + fmt.Sprint(q.job.MapOrders)
+		key := q.job.Setup + "|" + fmt.Sprint(q.job.MapOrders) + "|" + strings.Join(q.job.Stubs, ",")
 		m := machines[key]
 		if m == nil {
 			m, err = e.newMachine(q.job, solver)
@@ -208,6 +236,13 @@ func (e *Explorer) newMachine(job *Job, solver *Solver) (m *Machine, err error) 
 	m.solver = solver
 	m.job = job
 	m.mapOrderAll = job.MapOrders
+	m.stubSet = map[string]bool{}
+	for _, s := range job.Stubs {
+		m.stubSet[s] = true
+	}
+	if e.maxSteps > 0 {
+		m.maxSteps = e.maxSteps
+	}
 	m.spawn = func(WorkItem) { panic("spawn during setup: setup must be concrete") }
 	defer func() {
 		if r := recover(); r != nil {
@@ -286,6 +321,9 @@ func (e *Explorer) runPath(m *Machine, q queued) {
 	}
 	m.steps = 0
 	m.depth = 0
+	clear(m.slab[:m.sp])
+	m.sp = 0
+	m.nframes = 0
 	m.symBackEdges = 0
 	m.cur = nil
 	m.env.reset()
